@@ -85,8 +85,8 @@ RECURSIVE ImplLit(_, _)
 ImplLit(p, o) == IF p = <<>> THEN <<>> ELSE Cat(LitCtxChar(p[1], o), ImplLit(Tail(p), o))
 
 (* ---- writeCDATA / writeCDATAChars / writeCDATAChar -------------------------------------------------- *)
-(* the look-ahead `i - length > 2` is always true (unsigned): modelled as "in bounds" here, the read past *)
-(* the end is KD_cdataLookaheadPastEnd (visible to ASan only)                                            *)
+(* the look-ahead for "]]>" is guarded by `length - i > 2` (fix ee3b6b4; `i - length > 2` on unsigned     *)
+(* operands was always true and read past the end): exactly the in-bounds test below                      *)
 RECURSIVE ImplCdataFrom(_, _, _, _, _)
 ImplCdataFrom(p, i, outside, out, o) ==
   IF out = Err THEN Err
@@ -152,10 +152,14 @@ LastNonLF(p) == IF p = <<>> THEN 0 ELSE IF p[Len(p)] # LF THEN Len(p) ELSE LastN
 KD_cdataSectionLeftOpen(ctx, p, o) ==
   ctx = "cdata" /\ Family(o.enc) = "other" /\ LastNonLF(p) > 0
   /\ LET c == p[LastNonLF(p)] IN ~IsHigh(c) /\ ~Encodable(c, o.enc) /\ ~CharRefForbidden(c, o.ver)
-(* "]]>" right after an unencodable character: a stray "]]>" is written outside any section *)
+(* "]]>" right after an unencodable character (line feeds in between do not count): a stray "]]>" is      *)
+(* written outside any section                                                                          *)
+RECURSIVE SkipLF(_, _)
+SkipLF(p, i) == IF i <= Len(p) /\ p[i] = LF THEN SkipLF(p, i + 1) ELSE i
 KD_cdataEndAfterUnencodable(ctx, p, o) ==
   ctx = "cdata" /\ Family(o.enc) = "other"
-  /\ \E i \in 1..(Len(p) - 3) : ~IsHigh(p[i]) /\ ~Encodable(p[i], o.enc) /\ SubSeq(p, i + 1, i + 3) = <<RSB, RSB, GT>>
+  /\ \E i \in 1..Len(p) : /\ ~IsHigh(p[i]) /\ ~Encodable(p[i], o.enc) /\ ~CharRefForbidden(p[i], o.ver)
+                           /\ LET j == SkipLF(p, i + 1) IN j + 2 <= Len(p) /\ SubSeq(p, j, j + 2) = <<RSB, RSB, GT>>
 
 AnyKD(ctx, p, o) ==
   \/ KD_loneSurrogateWritten(ctx, p, o)
